@@ -261,7 +261,11 @@ pub fn packinfo_free(seed: u64, id: u16) -> Vec<u8> {
     if seed == 0 {
         return vec![];
     }
-    let n = free_bytes(seed, &format!("packinfo-len:{id}"), 1)[0] as usize % 41;
+    let mut n = free_bytes(seed, &format!("packinfo-len:{id}"), 1)[0] as usize % 41;
+    if seed % 8 == 1 && id == 1 {
+        // one big per-pack free data: the manifest's value store then pushes the pack descriptions beyond the first 64 KiB of the pack
+        n = 70_000;
+    }
     free_bytes(seed, &format!("packinfo:{id}"), n)
 }
 
